@@ -48,13 +48,19 @@ GHOSTS = {
     "$trace_n": I,
     "$trace": IS,
     "$trace_c": II,
+    "$tres": II,
 }
 
 RES_NONEMPTY = z3.Function("duck_res_nonempty", I, B)
 RES_COUNT = z3.Function("duck_res_count", I, V)  # first column of first row
 RES_TABLE = z3.Function("duck_res_table", I, I)  # arrow table id
 RES_ROWS_N = z3.Function("duck_res_nrows", I, I)
-RES_KIND = z3.Function("duck_res_kind", I, I)  # 0 unknown, 1 dml-count
+RES_KIND = z3.Function("duck_res_kind", I, I)  # 0 unknown, 1 dml-count, 2 fakesnow status row
+RES_NCOLS = z3.Function("duck_res_ncols", I, I)
+DUCK_DML = z3.Function("duck_is_dml", S, B)  # the statement text is an INSERT / UPDATE / DELETE (A-SQLGLOT 5 keeps the kind)
+IS_STATUS = z3.Function("duck_is_fakesnow_status_select", S, B)  # text instantiated from one of cursor.py's SQL_* status templates
+DUCK_TXN_END = z3.Function("duck_is_commit_or_rollback", S, B)
+ATTACHED_DB = z3.Function("duck_attached_db", S, S)  # name of the database the statement text attaches ('' if none)
 
 
 def ghost(st, name):
@@ -99,6 +105,7 @@ def install(w):
         n = ghost(st, "$trace_n")
         st.ghost["$trace"] = z3.Store(ghost(st, "$trace"), n, sql_term)
         st.ghost["$trace_c"] = z3.Store(ghost(st, "$trace_c"), n, conn_id)
+        st.ghost["$tres"] = z3.Store(ghost(st, "$tres"), n, ghost(st, "$dlast")[conn_id])
         st.ghost["$trace_n"] = n + 1
 
     def new_result(ex, st, cid):
@@ -178,7 +185,25 @@ def install(w):
     def t_timezone(ex, st, cid, holes, node):
         new_result(ex, st, cid)
 
+    def t_status(nrows_cols):
+        def h(ex, st, cid, holes, node):
+            from .externs_arrow import TBL_NCOLS
+
+            r = new_result(ex, st, cid)
+            st.assume(z3.And(RES_ROWS_N(r) == 1, RES_KIND(r) == 2, RES_NCOLS(r) == nrows_cols))
+
+        return h
+
     TEMPLATES = {
+        "SELECT 'Statement executed successfully.' as 'status'": t_status(1),
+        "SELECT 'Database {} successfully created.' as 'status'": t_status(1),
+        "SELECT 'Schema {} successfully created.' as 'status'": t_status(1),
+        "SELECT 'Table {} successfully created.' as 'status'": t_status(1),
+        "SELECT 'View {} successfully created.' as 'status'": t_status(1),
+        "SELECT '{} successfully dropped.' as 'status'": t_status(1),
+        "SELECT {} as 'number of rows inserted'": t_status(1),
+        "SELECT {} as 'number of rows updated', 0 as 'number of multi-joined rows updated'": t_status(2),
+        "SELECT {} as 'number of rows deleted'": t_status(1),
         "select * from information_schema.schemata where upper(catalog_name) = '{}'": t_exists_catalog,
         "select * from information_schema.schemata where upper(catalog_name) = '{}' and upper(schema_name) = '{}'": t_exists_schema,
         "ATTACH DATABASE '{}' AS {}": t_attach,
@@ -219,6 +244,8 @@ def install(w):
                 raise Unsupported("SQL text handed to DuckDB matches no A-DUCK template: " + (sig[0][:80] if sig else "<not a literal skeleton>"), node)
             # generic statement: may fail with any DuckDB error; may change the catalog
             fails = ex.fresh("duck_fails", B)
+            # A-DUCK: fakesnow's own status selects (`SELECT '<text>' as 'status'`, `SELECT <n> as 'number of rows ...'`) never fail
+            st.assume(z3.Implies(IS_STATUS(sqlt), z3.Not(fails)))
             r = st.fork()
             r.assume(fails)
             e = ex.new_object(r, None, duckdb.Error)
@@ -227,13 +254,22 @@ def install(w):
             tup = ex.new_seq_lit(r, tuple, [Val(mks(m), str)])
             r.heap["$exc_args"] = z3.Store(r.arr("$exc_args"), V.rid(e.t), tup.t)
             r.heap["$exc_str"] = z3.Store(r.arr("$exc_str"), V.rid(e.t), mks(m))
+            # A-DUCK 1: 'cannot commit/rollback - no transaction is active' is only ever the answer to COMMIT / ROLLBACK
+            no_tx = z3.Or(z3.Contains(m, z3.StringVal("cannot rollback - no transaction is active")), z3.Contains(m, z3.StringVal("cannot commit - no transaction is active")))
+            r.assume(z3.Implies(z3.And(w.classes.isa(CLS(V.rid(e.t)), duckdb.TransactionException), no_tx), z3.And(z3.Not(DUCK_DML(sqlt)), DUCK_TXN_END(sqlt))))
             # a failed statement changes nothing in DuckDB (statement-level atomicity, A-DUCK)
             ex.raise_exc(r, e, node)
             st.assume(z3.Not(fails))
+            # catalog ghosts: unknown after an arbitrary statement, unchanged after one of fakesnow's status selects
             for g in ("$cats", "$schemas", "$files", "$boot", "$macros"):
-                st.ghost[g] = ex.fresh(f"g_{g}", GHOSTS[g])
-            st.ghost["$search"] = z3.Store(ghost(st, "$search"), cid, ex.fresh("search", S))
-            new_result(ex, st, cid)
+                st.ghost[g] = z3.If(IS_STATUS(sqlt), ghost(st, g), ex.fresh(f"g_{g}", GHOSTS[g]))
+            st.ghost["$search"] = z3.If(IS_STATUS(sqlt), ghost(st, "$search"), z3.Store(ghost(st, "$search"), cid, ex.fresh("search", S)))
+            r_ = new_result(ex, st, cid)
+            st.assume(z3.Implies(IS_STATUS(sqlt), z3.And(RES_ROWS_N(r_) == 1, RES_KIND(r_) == 2)))
+            st.assume(z3.Implies(IS_STATUS(sqlt), z3.Not(DUCK_DML(sqlt))))
+            # A-DUCK 2: a successful INSERT/UPDATE/DELETE yields one row holding the affected-row count
+            st.assume((RES_KIND(r_) == 1) == DUCK_DML(sqlt))
+            st.assume(z3.Implies(ATTACHED_DB(sqlt) != z3.StringVal(""), st.ghost["$cats"][UPPER(ATTACHED_DB(sqlt))]))
         trace_append(st, sqlt, cid)
         return conn
 
@@ -292,6 +328,7 @@ def install(w):
         st.assume(RES_TABLE(r) == tid) if False else None
         st.assume(wf_table(tid))
         st.assume(TBL_NROWS(tid) == RES_ROWS_N(r))
+        st.assume(RES_ROWS_N(r) >= 0)
         return t
 
     H["duckdb.duckdb.DuckDBPyConnection.fetch_arrow_table"] = m_fetch_arrow_table
@@ -333,6 +370,36 @@ def install(w):
             return f
 
         return deco
+
+    @sf("duck_dml")
+    def _duck_dml(ex, st, args):
+        return Val(mkb(DUCK_DML(V.sval(args[0].t))), bool)
+
+    @sf("duck_txn_end")
+    def _duck_txn_end(ex, st, args):
+        return Val(mkb(DUCK_TXN_END(V.sval(args[0].t))), bool)
+
+    @sf("attaches")
+    def _attaches(ex, st, args):
+        return Val(mkb(z3.And(ATTACHED_DB(V.sval(args[0].t)) == V.sval(args[1].t), V.sval(args[1].t) != z3.StringVal(""))), bool)
+
+    @sf("last_result_count")
+    def _last_result_count(ex, st, args):
+        """first cell of the result of statement number k of the trace (defined for DML results)"""
+        return Val(RES_COUNT(ghost(st, "$tres")[ex.as_int(st, args[0])]), None)
+
+    @sf("exc_message")
+    def _exc_message(ex, st, args):
+        return Val(st.arr("$exc_str")[V.rid(args[0].t)], str)
+
+    @sf("result_count")
+    def _result_count(ex, st, args):
+        """affected-row count reported by DuckDB for statement number k of the trace (A-DUCK 2)"""
+        return Val(RES_COUNT(ghost(st, "$tres")[ex.as_int(st, args[0])]), None)
+
+    @sf("result_rows")
+    def _result_rows(ex, st, args):
+        return Val(mki(RES_ROWS_N(ghost(st, "$tres")[ex.as_int(st, args[0])])), int)
 
     @sf("cat_exists")
     def _cat_exists(ex, st, args):
@@ -384,6 +451,10 @@ def install(w):
     def _bootstrapped(ex, st, args):
         D = V.sval(args[0].t)
         return Val(mkb(z3.And(ghost(st, "$boot")[D], ghost(st, "$macros")[D])), bool)
+
+    @sf("bootstrapped_info")
+    def _bootstrapped_info(ex, st, args):
+        return Val(mkb(ghost(st, "$boot")[V.sval(args[0].t)]), bool)
 
     @sf("trace_len")
     def _trace_len(ex, st, args):
